@@ -26,6 +26,8 @@ pub struct ProverCfg {
     pub profile_standard: bool,
     pub npo: BuilderOpts,
     pub debug_lookups: bool,
+    /// register the width-32 Poseidon2 table (arity-4 MMCS circuits) instead of the width-16 one
+    pub poseidon_w32: bool,
 }
 impl Default for ProverCfg {
     fn default() -> Self {
@@ -37,6 +39,7 @@ impl Default for ProverCfg {
             profile_standard: true,
             npo: BuilderOpts::default(),
             debug_lookups: false,
+            poseidon_w32: false,
         }
     }
 }
@@ -44,7 +47,7 @@ impl ProverCfg {
     pub fn to_json(&self) -> serde_json::Value {
         serde_json::json!({"public_lanes": self.public_lanes, "alu_lanes": self.alu_lanes, "horner_k": self.horner_k,
             "min_height": self.min_height, "profile_standard": self.profile_standard,
-            "poseidon": self.npo.poseidon, "recompose": self.npo.recompose})
+            "poseidon": self.npo.poseidon, "recompose": self.npo.recompose, "poseidon_w32": self.poseidon_w32})
     }
     pub fn from_json(v: &serde_json::Value) -> Self {
         let g = |k: &str, d: usize| v.get(k).and_then(|x| x.as_u64()).map(|x| x as usize).unwrap_or(d);
@@ -57,6 +60,7 @@ impl ProverCfg {
             profile_standard: b("profile_standard", true),
             npo: BuilderOpts { poseidon: b("poseidon", false), recompose: b("recompose", false) },
             debug_lookups: false,
+            poseidon_w32: b("poseidon_w32", false),
         }
     }
     pub fn swarm(rng: &mut crate::core::prng::Rng, npo: BuilderOpts) -> Self {
@@ -68,6 +72,7 @@ impl ProverCfg {
             profile_standard: true,
             npo,
             debug_lookups: false,
+            poseidon_w32: false,
         }
     }
 }
@@ -109,6 +114,9 @@ pub trait CircuitUni: 'static {
     /// Evaluate every table's AIR constraints row by row on the given main matrices (p3's
     /// `DebugConstraintBuilder`, no proof): per table, `None` if satisfied, else (row, failures).
     fn constraint_check(keys: &Self::Keys, mats: &[p3_matrix::dense::RowMajorMatrix<Self::BF>]) -> Vec<Option<(usize, String)>>;
+    /// Verifier-side manifest check: a `VerifierManifest` describing `expected` (the proof shape the
+    /// verifier knows its circuit produces) applied to `received`.
+    fn manifest_matches(expected: &Self::Proof, received: &Self::Proof) -> Result<(), String>;
     /// The ALU table's preprocessed matrix exactly as key generation commits to it.
     fn alu_prep(keys: &Self::Keys) -> Option<p3_matrix::dense::RowMajorMatrix<Self::BF>>;
     /// Serialize / deserialize through the in-tree wire format (postcard).
@@ -192,7 +200,7 @@ pub mod uparams {
 macro_rules! uni_npo_prover {
     (yes, $p:ident, $cfg:ident, $d:expr, $p2cfg:expr) => {
         if $cfg.npo.poseidon {
-            $p.register_poseidon2_table::<$d>($p2cfg);
+            $p.register_poseidon2_table::<$d>(if $cfg.poseidon_w32 { p3_circuit::ops::Poseidon2Config::KOALA_BEAR_D4_W32 } else { $p2cfg });
         }
         if $cfg.npo.recompose {
             $p.register_recompose_table::<$d>(false);
@@ -395,6 +403,18 @@ macro_rules! binomial_universe {
                         }
                     })
                     .collect()
+            }
+
+            fn manifest_matches(expected: &Self::Proof, received: &Self::Proof) -> Result<(), String> {
+                use p3_circuit_prover::manifest::{ExpectedNpoEntry, VerifierManifest};
+                let reduction = p3_circuit_prover::air::AluExtMulKind::resolve(expected.ext_degree, expected.w_binomial, expected.alu_quintic_trinomial).ok_or("no reduction")?;
+                let m = VerifierManifest::<Self::BF> {
+                    ext_degree: expected.ext_degree,
+                    reduction,
+                    alu_variant: expected.alu_variant,
+                    expected_npo: expected.non_primitives.iter().map(|e| ExpectedNpoEntry { op_type: e.op_type.clone(), air_variant: e.air_variant, public_values_len: e.public_values.len() }).collect(),
+                };
+                m.matches(received).map_err(|e| format!("{e:?}"))
             }
 
             fn alu_prep(keys: &Self::Keys) -> Option<p3_matrix::dense::RowMajorMatrix<Self::BF>> {
